@@ -684,13 +684,12 @@ def runCanonical (grp : String) (dbg : Bool) (op : String) (mask : Nat) (args : 
   | _ => none
 
 /-- aliases are resolved through `Api` (renames, and tangent-side forms with swapped optional
-    outputs), then the canonical member runs. -/
-def runGroup (grp : String) (dbg : Bool) (op : String) (mask : Nat) (args : List K)
-    (ints : List Int) : Option (Except Err (List K)) :=
+    outputs), then the canonical member `run` runs. -/
+def withAliases (run : String → Nat → List K → List Int → Option (Except Err (List K))) (rep dof : Nat)
+    (op : String) (mask : Nat) (args : List K) (ints : List Int) : Option (Except Err (List K)) :=
   let cop := Api.canonical op
   if Api.isSwapped op then
-    let (rep, dof) := groupSizes grp
-    (runCanonical grp dbg cop (Api.swapMask mask) args ints).map fun r => r.map fun out =>
+    (run cop (Api.swapMask mask) args ints).map fun r => r.map fun out =>
       -- canonical output: value ++ J_m? ++ J_t?   (mask' bit0 = J_m, bit1 = J_t)
       let wt := mask % 2 == 1      -- the alias' first optional output is J_t
       let wm := (mask / 2) % 2 == 1
@@ -699,6 +698,10 @@ def runGroup (grp : String) (dbg : Bool) (op : String) (mask : Nat) (args : List
       let jm := if wm then rest.take (dof * dof) else []
       let jt := if wt then (rest.drop (if wm then dof * dof else 0)).take (dof * dof) else []
       v ++ jt ++ jm
-  else runCanonical grp dbg cop mask args ints
+  else run cop mask args ints
+
+def runGroup (grp : String) (dbg : Bool) (op : String) (mask : Nat) (args : List K)
+    (ints : List Int) : Option (Except Err (List K)) :=
+  withAliases (runCanonical grp dbg) (groupSizes grp).1 (groupSizes grp).2 op mask args ints
 
 end Manif
